@@ -76,3 +76,6 @@ Definition table : option_table := {|
   t_coerce := CoerceBoolHelper;
   t_false_strings := [""; "0"; "false"; "off"]
 |}.
+
+(* read_configuration_file(None): the first of these that exists is read, only that one *)
+Definition rc_candidates : list string := ["~/.config/jug/jugrc"; "~/.config/jugrc"; "~/.jug/configrc"].
